@@ -18,8 +18,8 @@ func init() {
 		Quick: 150, Thorough: 3000, FloorQuick: 600, FloorThorough: 12000,
 		CaseTimeout: 10 * time.Minute,
 		Assumptions: []string{"B runs to completion inside a gap (no overlap in time with a statement of A): the property is about what A sees between its own statements", "the version seen after a failed lock upgrade is not specified and cannot occur here (B never holds the lock across a gap)"},
-		Setup: func(w *core.Worker) { core.HermeticProcess(w.Work) },
-		Fn:    c20Case,
+		Setup:       func(w *core.Worker) { core.HermeticProcess(w.Work) },
+		Fn:          c20Case,
 	})
 }
 
